@@ -12,6 +12,7 @@ THEOREMS = [(M, "NQ.C01." + n) for n in [
     "vanilla_clashes_are_known", "nv_reids_no_known_clash", "nv_roundtrip", "reids_roundtrip",
     "vanilla_roundtrip_partial", "vanilla_counterexample"]]
 TRANSLATORS = ["instr_table"]
+LEANCHECK_EXTRA = ["NetqasmVerif.Props.WireObligations"]
 LEVEL_TEXT = 'Lean theorems: operand/instruction/subroutine round-trip for ALL in-range operand values and subroutines of any length over any table without opcode clash (induction), instantiated for the NV and REIDS tables unconditionally and for vanilla outside the recorded clash (F1). Tie: tables and single-bit encode/decode probes are regenerated from the live classes and re-decided by the kernel; differential stream against the compiled model.'
 LEVEL_NOTE = 'Trusted: Lean kernel; translator + harness; ctypes bitwise linearity. Instructions modelled as (class, operands).'
 TECHNIQUE = 'Lean 4 proof (induction over operands and instruction lists) + kernel-decided generated obligations + differential correspondence'
